@@ -237,18 +237,21 @@ func (a *sparseArrayObject) setForeignIdx(name valueInt, val, receiver Value, th
 }
 
 type sparseArrayPropIter struct {
-	a    *sparseArrayObject
+	val  *Object
+	idxs []uint32     // the indices present when the enumeration started
 	base iterNextFunc // the non-index keys as of the start of the enumeration
-	idx  int
+	pos  int
 }
 
 func (i *sparseArrayPropIter) next() (propIterItem, iterNextFunc) {
-	for i.idx < len(i.a.items) {
-		name := asciiString(strconv.Itoa(int(i.a.items[i.idx].idx)))
-		prop := i.a.items[i.idx].value
-		i.idx++
-		if prop != nil {
-			return propIterItem{name: name, value: prop}, i.next
+	for i.pos < len(i.idxs) {
+		idx := i.idxs[i.pos]
+		i.pos++
+		// looked up again at the time of the visit: elements deleted meanwhile are skipped, deleting or adding other
+		// elements (which shifts the item list, or converts the array to the compact representation) does not
+		// make the enumeration skip or repeat the remaining ones
+		if prop := i.val.self.getOwnPropIdx(valueInt(idx)); prop != nil {
+			return propIterItem{name: asciiString(strconv.FormatUint(uint64(idx), 10)), value: prop}, i.next
 		}
 	}
 
@@ -256,8 +259,13 @@ func (i *sparseArrayPropIter) next() (propIterItem, iterNextFunc) {
 }
 
 func (a *sparseArrayObject) iterateStringKeys() iterNextFunc {
+	idxs := make([]uint32, len(a.items))
+	for i := range a.items {
+		idxs[i] = a.items[i].idx
+	}
 	return (&sparseArrayPropIter{
-		a:    a,
+		val:  a.val,
+		idxs: idxs,
 		base: a.baseObject.iterateStringKeys(),
 	}).next
 }
